@@ -71,6 +71,8 @@ func vKeywords(shape int) []string {
 // (residue count, table kind) per shard; the first six are the quick tier
 var vC01Shapes = [][2]int{{4, 0}, {0, 0}, {12, 1}, {61, 1}, {4, 3}, {4, 2}, {12, 0}, {61, 0}, {4, 1}, {0, 1}, {12, 2}, {12, 3}}
 
+var vC01RefNumbers = []int{1, 100, 12, 1234, 999, 9}
+
 func vC01(shape int) {
 	n, kind := vC01Shapes[shape][0], vC01Shapes[shape][1]
 	data := vBytesIn("r", n, 33, 126)
@@ -96,7 +98,8 @@ func vC01(shape int) {
 		p.Add("codon_start", "1")               // literal
 		p.Add("pseudo", "")                     // toggle
 		p.Add("translation", "MK")              // not the last qualifier: the order of qualifiers is part of the table
-		p.Add("note", string(vBytesIn("q1", 2, 'a', 'c'))+"\n"+vWordBytes("q2", 1)) // multi-line quoted
+		// multi-line quoted: four lines, the inner ones short (one letter) and empty (a paragraph break)
+		p.Add("note", string(vBytesIn("q1", 2, 'a', 'c'))+"\n"+vWordBytes("q2", 1)+"\n\n"+vWordBytes("q3", 1))
 		s := vIntIn("f.s", 0, 8)
 		e := vIntIn("f.e", 1, 9)
 		vAssume(s < e)
@@ -112,7 +115,10 @@ func vC01(shape int) {
 			Date: vValidDate(), Definition: string(vBytesIn("def", 2, '.', 'z')), Accession: vAccession(kind), Version: vWordBytes("ver", 1),
 			Keywords: vKeywords(shape),
 			Source:   Organism{vWordBytes("sp", 1), vWordBytes("org", 1), []string{vWordBytes("tax", 1), "x"}},
-			References: []Reference{{Number: 1, Info: "(bases 1 to 4)", Authors: vWordBytes("au", 1), Title: vWordBytes("ti", 1)}},
+			// reference numbers of 1..4 digits (the number shares a 3-column field with the pad before the base range), one per shard;
+			// a second reference without base range
+			References: []Reference{{Number: vC01RefNumbers[shape%len(vC01RefNumbers)], Info: "(bases 1 to 4)", Authors: vWordBytes("au", 1), Title: vWordBytes("ti", 1)},
+				{Number: vC01RefNumbers[shape%len(vC01RefNumbers)] + 1, Info: "", Authors: vWordBytes("av", 1), Title: vWordBytes("tj", 1)}},
 			Comments:   []string{vWordBytes("cm", 2), vWordBytes("cn", 1) + "\n\n" + vWordBytes("co", 1)}, // the second one has a paragraph break
 		},
 		Table:  ff,
@@ -185,7 +191,7 @@ func vC01(shape int) {
 }
 
 //verif:harness prop=C01 quick=6 thorough=12 merge=concrete timeout=1500 steps=200000000
-//verif:bounds bounded template records: residues 4 | 0 (CONTIG-only) | 12 | 61 symbolic printable bytes; feature table empty | source only | CDS (symbolic partial range on either strand; quoted, literal, toggle and multi-line qualifiers, /translation followed by another qualifier) + gene join | a feature between two genes whose key starts with two symbolic bytes of the INSDC key alphabet (letters, digits, _ - ' *); header strings of 1..2 symbolic letters each (definition bytes over '.'..'z', so it may end in a period); keywords: one short, or eight long ones that wrap; two comments, one with a blank line inside; a two-line ACCESSION in the source-only shapes; reference, dblink and taxonomy compared field by field; symbolic valid calendar date (year 1000..9999); topology by choice
+//verif:bounds bounded template records: residues 4 | 0 (CONTIG-only) | 12 | 61 symbolic printable bytes; feature table empty | source only | CDS (symbolic partial range on either strand; quoted, literal, toggle and 4-line quoted qualifiers (short and empty inner lines), /translation followed by another qualifier) + gene join | a feature between two genes whose key starts with two symbolic bytes of the INSDC key alphabet (letters, digits, _ - ' *); two references (number of 1..4 digits per shard: 1 | 100 | 12 | 1234 | 999 | 9, with base range; the next number without); header strings of 1..2 symbolic letters each (definition bytes over '.'..'z', so it may end in a period); keywords: one short, or eight long ones that wrap; two comments, one with a blank line inside; a two-line ACCESSION in the source-only shapes; reference, dblink and taxonomy compared field by field; symbolic valid calendar date (year 1000..9999); topology by choice
 //verif:assume time.Time.Format("02-Jan-2006") is modelled field by field for a valid date
 func VH_C01_roundtrip() {
 	ns := 6 + 6*vTier()
